@@ -27,7 +27,7 @@ ASSUMPTIONS = [
     "noise floor = 32 x max(8 eps |y|, deviation of the real untransformed step under (1+-eps) input perturbations, 3 re-runs)",
     "FFT plans differ between the two grid shapes, so nothing is compared bitwise",
 ]
-REQUIRE = {"pairs_2d": 6, "pairs_3d": 5, "pairs_passive": 2}
+REQUIRE = {"pairs_2d": 12, "pairs_3d": 8, "pairs_passive": 2}
 SHARD_TIMEOUT = {"quick": 1500, "thorough": 3000}
 
 # a symmetry = (perm, signs) acting on coordinates (x, y[, z]):  x'_i = signs[i] * x_perm[i]
@@ -94,10 +94,11 @@ def shards(tier, seed):
     c3 = util.pairwise_cover(ax3, rng)
     s2, s3 = list(SYM2), list(SYM3)
     if tier == "quick":
-        for i, c in enumerate(c2[:9]):
-            cases.append(dict(c, kind="ns2d", sym=s2[i % 3]))
-        for i, c in enumerate(c3[:8]):
-            cases.append(dict(c, kind="ns3d", sym=s3[i % 5], filter=filters[c["filter"]]))
+        for i, c in enumerate(c2):
+            cases.append(dict(c, kind="ns2d", sym=s2[(i + seed) % 3]))
+            cases.append(dict(c, kind="ns2d", sym=s2[(i + seed + 1) % 3]))
+        for i, c in enumerate(c3[:12]):
+            cases.append(dict(c, kind="ns3d", sym=s3[(i + seed) % 5], filter=filters[c["filter"]]))
         for i, (ft, d) in enumerate((("scalar", 2), ("scalar", 3), ("vector", 3))):
             cases.append({"kind": "passive", "field_type": ft, "dim": d, "dtype": "float64" if i % 2 == 0 else "float32", "sym": (s2 if d == 2 else s3)[(i + seed) % (3 if d == 2 else 5)]})
     else:
